@@ -22,7 +22,7 @@ SCHEMAS = {
 
 GHOST = {
     't6_ok': 'Bool',        # every handler looked at so far was treated as it should be
-    't6_sess': 'Bool', 't6_term': 'Bool',     # flags of the handler at the beginning of its iteration
+    't6_sess': 'Bool', 't6_term': 'Bool', 't6_open': 'Bool',     # state of the handler at the beginning of its iteration
 }
 
 EXTERNS = {}
@@ -63,12 +63,15 @@ FUNCS = {
     'tcpcl.agent:Agent.shutdown': dict(
         self='Ref[TAgent]', returns='Bool', props=['C09'],
         requires=[('starts_clean', 'ghost.t6_ok', [])],
-        modifies=['TAgent._in_shutdown', 'Hdl._in_term', 'Hdl.is_open', 'ghost.t6_ok', 'ghost.t6_sess', 'ghost.t6_term'],
+        modifies=['TAgent._in_shutdown', 'Hdl._in_term', 'Hdl.is_open', 'ghost.t6_ok', 'ghost.t6_sess', 'ghost.t6_term',
+                  'ghost.t6_open'],
         loops={0: dict(
             invariant=[('treated_right_so_far', 'ghost.t6_ok')],
-            ghost_begin=['ghost.t6_sess = hdl._in_sess\nghost.t6_term = hdl._in_term\n'],
+            ghost_begin=['ghost.t6_sess = hdl._in_sess\nghost.t6_term = hdl._in_term\nghost.t6_open = hdl.is_open\n'],
             # in session and not terminating: asked to terminate; no session: closed; terminating: left alone
-            ghost_end=['ghost.t6_ok = ghost.t6_ok and ite(ghost.t6_term, True, ite(ghost.t6_sess, hdl._in_term, not hdl.is_open))\n'],
+            # (a terminating session may have transfers in progress that still have to complete: it is not closed)
+            ghost_end=['ghost.t6_ok = ghost.t6_ok and ite(ghost.t6_term, hdl.is_open == ghost.t6_open and hdl._in_term, '
+                       'ite(ghost.t6_sess, hdl._in_term and hdl.is_open == ghost.t6_open, not hdl.is_open))\n'],
         )},
         ensures=[
             # raises nothing (no exception is declared) and every handler was treated as its state requires
